@@ -80,11 +80,13 @@ fn follow_executor(initial: &[u8], head: bool, appends: &[&[u8]], expected_recor
         let running2 = running.clone();
         let path = file2.clone();
         let (ready_tx, ready_rx) = mpsc::channel::<()>();
+        let (go_tx, go_rx) = mpsc::channel::<()>();
         let worker = std::thread::spawn(move || -> Result<(), String> {
             let tables = tables("CREATE TABLE t(line = '(.*)', line[1] => x TEXT);")?;
             let statement = parsing::parse("SELECT x FROM t").map_err(|e| format!("{}", e))?;
             let mut executor = FollowFileExecutor::new(running2, File::open(&path).map_err(|e| e.to_string())?, head, Default::default(), ExecutionEngine::new(&tables, &statement)).map_err(|e| e.to_string())?;
-            let _ = ready_tx.send(());   // the start position has been taken
+            let _ = ready_tx.send(());   // the start position has been taken (start-up = the construction of the executor)
+            let _ = go_rx.recv_timeout(Duration::from_secs(5));   // the first append happens between start-up and the first poll
             executor.execute().map_err(|e| format!("{}", e))
         });
         // append only after the executor has taken its start position
@@ -93,8 +95,10 @@ fn follow_executor(initial: &[u8], head: bool, appends: &[&[u8]], expected_recor
             let mut f = std::fs::OpenOptions::new().append(true).open(&file2).map_err(|e| e.to_string())?;
             f.write_all(a).map_err(|e| e.to_string())?;
             drop(f);
+            let _ = go_tx.send(());
             std::thread::sleep(Duration::from_millis(30));
         }
+        let _ = go_tx.send(());
         // wait for the records, then stop the executor: clear the flag and complete one more line
         let t0 = std::time::Instant::now();
         loop {
